@@ -25,6 +25,7 @@ Record eff_repl (s s' : st) (old : key) : Prop := mkEffRepl {
   er_np : forall d, ~ In (d, old) (pending s);
   er_drawn : key_drawn s old;
   er_fresh : sref s (KGen (supply s)) = None;
+  er_newnp : forall d, ~ In (d, KGen (supply s)) (pending s);
   er_old' : sref s' old = Some (Some (KGen (supply s)));
   er_new' : sref s' (KGen (supply s)) = Some None;
   er_oth : forall k', k' <> old -> k' <> KGen (supply s) -> sref s' k' = sref s k';
@@ -161,6 +162,7 @@ Proof.
     - intros d Hin. exact (P d _ Hin Hlive).
     - exact Hdrawn.
     - eapply next_unstored; exact I.
+    - eapply next_unqueued; exact I.
     - exact D4.
     - exact Hnew4.
     - exact Hoth4.
